@@ -141,6 +141,7 @@ func (conn *Conn) recv() {
 
 			conn.Lock()
 			conn.nreqs++
+			req.seq = conn.nreqs
 			conn.tsz += uint64(fc.Size)
 			conn.npend++
 			if conn.npend > conn.maxpend {
